@@ -303,6 +303,8 @@ def run(ctx):
   con = construct(f)
 
   # ---- C01.fresh
+  from .common import bindings_result_fresh
+  bindings_result_fresh(ctx, 'C01.fresh')
   ok = w.B is not None
   ctx.check(ok, 'C01.fresh', con, 'the bindings are fetched by _get_bindings inside the per-call wrapper (under the scope active at the call)',
             'gin_wrapper no longer fetches the bindings itself on every call (hoisted into the factory or cached): bindings made '
